@@ -85,3 +85,31 @@ pub fn ctl_matches_kind_only<D: GarnishData>(data: &mut D, ends: Vec<(Instructio
     }
     Ok(())
 }
+
+pub fn ctl_stream_last_unguarded<D: GarnishData>(data: &mut D, ends: Vec<(Instruction, Option<D::Size>)>) -> Result<(), D::Error> {
+    let last = data.get_instruction_iter().last();
+    for end in ends {
+        match last.clone().and_then(|i| data.get_instruction(i)) {
+            Some(i) if i == end => {}
+            _ => {
+                data.push_instruction(end.0, end.1)?;
+            }
+        }
+    }
+    Ok(())
+}
+
+pub fn ok_stream_last_guarded<D: GarnishData>(data: &mut D, root_start: D::Size, ends: Vec<(Instruction, Option<D::Size>)>) -> Result<(), D::Error> {
+    let start = data.get_instruction_len();
+    let _ = root_start;
+    let last = if data.get_instruction_len() > start { data.get_instruction_iter().last() } else { None };
+    for end in ends {
+        match last.clone().and_then(|i| data.get_instruction(i)) {
+            Some(i) if i == end => {}
+            _ => {
+                data.push_instruction(end.0, end.1)?;
+            }
+        }
+    }
+    Ok(())
+}
